@@ -53,6 +53,19 @@ SPEC int itv_universe(const ITV_T *x) { return lo_inf(x) && hi_inf(x); }
 SPEC int itv_bounded(const ITV_T *x) { return !lo_inf(x) && !hi_inf(x); }
 SPEC int itv_closed(const ITV_T *x) { return (lo_inf(x) || !lo_open(x)) && (hi_inf(x) || !hi_open(x)); }
 
+/* boxes whose storage is wherever the vector points (results of operations that reallocate or swap storage) */
+#define SEQ(b) ((const ITV_T *)BOX_BEGIN(b))
+/* a well-formed box wherever its storage lives */
+SPEC int box_wf_any(const BOX_T *b) {
+  if (BOX_END(b) != BOX_BEGIN(b) + BOX_D || BOX_CAP(b) < BOX_END(b)) return 0;
+  if ((BOX_FLAGS(b) & ~(BST_EMPTY_UP_TO_DATE | BST_EMPTY)) != 0) return 0;
+  if (b_marked_empty(b)) return 1;
+  if (!ALLK(WF(&SEQ(b)[0]), WF(&SEQ(b)[1]))) return 0;
+  if (b_marked_nonempty(b) && !ALLK(!is_empty_set(&SEQ(b)[0]), !is_empty_set(&SEQ(b)[1]))) return 0;
+  return 1;
+}
+SPEC int bsat(const BOX_T *b) { return box_sat(b, SEQ(b)); }
+
 #if defined(VERIF_CBMC)
 #define FRAME_B __CPROVER_object_whole(G_xs), __CPROVER_object_whole(G_ys), __CPROVER_object_whole(&G_bx), __CPROVER_object_whole(&G_by)
 #define PRE_BX  PRE(wf_x, x == &G_bx && box_wf(x, G_xs)) PRE(point, pt_ok())
